@@ -271,6 +271,10 @@ class SearchGen:
             alts.append(alts[0])           # duplicate
         elif x < 0.25:
             alts.insert(rng.randrange(len(alts) + 1), "")   # empty alternative
+        elif x < 0.40:
+            alts.insert(rng.randrange(len(alts) + 1), "*")  # overlapping alternatives: '*' next to a literal
+        elif x < 0.47 and len(current) > 2:
+            alts += [current[:2] + "*", "*" + current[-2:]]  # two partial globs matching the same entry
         sep = ", " if rng.random() < 0.2 else ","
         return sep.join(alts)
 
